@@ -280,7 +280,11 @@ def run(ctx, rep):
                     callee = atomics.callee_of(tb)
                     if callee in F.bodies:
                         effs = E.summary(callee)
-                        if effs and all(e.exit == "div" for e in effs):
+                        is_std = any(c == "feature=std" for c in F.raw["cfg"])
+                        panics = is_std and any(e["kind"] in ("PANIC", "ASSERT-FAIL") for p in A.paths.get(callee, []) for e in p.events)
+                        if panics:
+                            rep.bad("R-ABORT", "%s[local, std]" % callee, "in a std build the overflow branch ends the process through a *panic* (the double-panic trick of the no_std build): the installed panic hook - user code - runs first, with the count already incremented, and a hook that does not return (logs and exits, parks the thread) means the process is never aborted; std builds have `std::process::abort`", F.loc(F.body(callee)), tag)
+                        elif effs and all(e.exit == "div" for e in effs):
                             rep.ok("R-ABORT", "%s[local, %s]" % (callee, "std" if any(c == "feature=std" for c in F.raw["cfg"]) else "no_std"), "computed summary: no path returns, none unwinds", cfg=tag)
                         else:
                             rep.bad("R-ABORT", "%s[local, %s]" % (callee, "std" if any(c == "feature=std" for c in F.raw["cfg"]) else "no_std"), "the local abort routine can %s" % sorted(set(e.exit for e in effs)), F.loc(F.body(callee)), tag)
@@ -330,6 +334,7 @@ def main(argv):
             ' Added later: an increment by `compare_exchange(cur, new)` between constants is a bounded site (new - cur = 1, new below the limit) and the guard is judged per path; also decided on configuration arm32 (32-bit limit).'
             ' The union dispatch rules (a clone made through an ArcUnion increments and tests the count word of the Arc it holds).'
             " Round fourteen: R-OFFSET as a premise (a clone made from a value pointer tests the word at the payload's true offset); the guard may test a value merged from the increment's result and the constant old value of a bounded CAS increment."
+            ' Round fifteen: R-ABORT refuses a panic-based abort in std configurations (the panic hook runs first).'
         ),
         rule_text="instances = guard clauses at the increment site, abort resolution per configuration, clone entry points",
         trusted_base=["rustc const evaluation of the limit and MIR", "panic while panicking aborts", "std::process::abort does not return or unwind"],
